@@ -1390,6 +1390,18 @@ _vbi_cache_foreach_page		(vbi_cache *		ca,
 		while (0 == ps->n_subpages
 		       || subno < ps->subno_min
 		       || subno > ps->subno_max) {
+			if (ps->n_subpages > 0) {
+				/* The walk started beside the subpages of
+				   this page, do not skip them. */
+				if (dir < 0 && subno > ps->subno_max) {
+					subno = ps->subno_max;
+					break;
+				} else if (dir > 0 && subno < ps->subno_min) {
+					subno = ps->subno_min;
+					break;
+				}
+			}
+
 			if (dir < 0) {
 				--pgno;
 				--ps;
